@@ -365,6 +365,7 @@ func c04Compress(c *Ctx, f *ssa.Function, digestField string) {
 		phis   map[int]*ssa.Phi
 		ind    induction
 		lo, hi int64
+		split  bool // one half of a loop that spans the j=16 boundary
 	}
 	var rloops []*rloop
 	var otherLoops []*ssa.BasicBlock
@@ -457,17 +458,28 @@ func c04Compress(c *Ctx, f *ssa.Function, digestField string) {
 	}
 	c.Check(next == 64, rule, fn, "round coverage", "rounds 0..63", fmt.Sprintf("rounds end at %d, GM/T 0004 has 64", next), f.Pos())
 
+	// a loop that spans the j=16 boundary (one fused loop selecting T_j, FF_j, GG_j by a test of j) is judged as its
+	// two halves, each with j confined to its half: the joins of `if j < 16` then take the input of that half
+	var halves []*rloop
 	for _, rl := range rloops {
+		if rl.lo < 16 && rl.hi > 16 {
+			a, b := &rloop{}, &rloop{}
+			*a, *b = *rl, *rl
+			a.hi, b.lo = 16, 16
+			a.split, b.split = true, true
+			halves = append(halves, a, b)
+		} else {
+			halves = append(halves, rl)
+		}
+	}
+	for _, rl := range halves {
 		var T uint64
 		var ffTT, ggTT string
 		switch {
 		case rl.hi <= 16:
 			T, ffTT, ggTT = 0x79cc4519, "tt96", "tt96"
-		case rl.lo >= 16:
-			T, ffTT, ggTT = 0x7a879d8a, "tte8", "ttd8"
 		default:
-			c.Violated(rule, fn, "round loop range", fmt.Sprintf("a round loop spans j=%d..%d across the j=16 boundary where T_j, FF_j and GG_j change", rl.lo, rl.hi-1), rl.h.Instrs[0].Pos())
-			continue
+			T, ffTT, ggTT = 0x7a879d8a, "tte8", "ttd8"
 		}
 		names := map[ssa.Value]string{rl.ind.phi: "j", recv: "recv"}
 		for r, p := range rl.phis {
@@ -490,6 +502,9 @@ func c04Compress(c *Ctx, f *ssa.Function, digestField string) {
 		for r := 0; r < 8; r++ {
 			_, back, _ := phiInitBack(rl.phis[r])
 			env := newCanon(names)
+			if rl.split {
+				env.rangeOf, env.rangeLo, env.rangeHi = rl.ind.phi, rl.lo, rl.hi
+			}
 			got := env.canon(back).String()
 			c.Evals += 20
 			c.Check(got == want[r].String(), rule, fn, fmt.Sprintf("round %s: %s'", half, roleNames[r]),
